@@ -296,6 +296,11 @@ def get_double(value: FloatArgType, xsd_version: str | None = None) -> float:
                 return math.nan  # for NaN use the predefined instance to keep identity
         elif value.lower() in INVALID_NUMERIC:
             raise ValueError(f'invalid value {value!r} for xs:double/xs:float')
+    elif isinstance(value, int):
+        try:
+            return float(value)
+        except OverflowError:
+            return math.inf if value > 0 else -math.inf  # out of the range of xs:double
     elif math.isnan(value):
         return math.nan
 
